@@ -213,6 +213,14 @@ func (p *Prog) rawTextCond(cond ssa.Value, want bool) (ok bool, why string) {
 		}
 		return false, "tag \"" + s + "\""
 	}
+	if _, set, member, isM := inSetOnEdge(cond, want); isM && member && len(set) > 0 {
+		for _, s := range set {
+			if s != "script" && s != "style" {
+				return false, "tag \"" + s + "\""
+			}
+		}
+		return true, ""
+	}
 	if cl, isCall := cond.(*ssa.Call); isCall && want {
 		if callee := cl.Call.StaticCallee(); callee != nil && inModule(callee) && len(callee.Params) == 1 {
 			cs := constsComparedWithParam(callee, 0)
@@ -284,8 +292,12 @@ func init() {
 		ID: "C01.R2", Props: []string{"C01", "C02"}, Min: 6,
 		Doc: "escaping at serialisation, without content sniffing: every text (Node.Data of a text node) and attribute value (Attribute.Val) the serialiser emits passes html.EscapeString, except (a) under an identity guard — a condition that is false only when escaping would not change the string (ContainsAny/IndexAny over a set ⊇ & < > \" ', or a predicate made of exactly that), (b) inside the script/style branch, (c) the two internal v-html/v-text carrier attributes; escaper helpers return either Escape(x) or x under an identity guard",
 		Run: func(p *Prog, c *Ctx) {
-			render := p.MustFn("(*vuego.Vue).render")
-			cone := p.Cone(render, p.MustFn("(*vuego.htmlRenderer).Render"))
+			// the serialiser: everything below the node writer (the small (*Vue).render loop over the roots may have been inlined)
+			roots := []*ssa.Function{p.MustFn("vuego.renderNodeWithContext"), p.MustFn("(*vuego.htmlRenderer).Render")}
+			if r := p.Fn("(*vuego.Vue).render"); r != nil {
+				roots = append(roots, r)
+			}
+			cone := p.Cone(roots...)
 			// 1. escaper helpers in the serialiser cone
 			escapers := map[*ssa.Function]bool{}
 			for _, fn := range sortedFuncs(cone) {
@@ -679,15 +691,9 @@ func init() {
 				n++
 				skipped := map[string]bool{}
 				for _, g := range guardsOf(site.Block()) {
-					cnd, flip := stripNot(g.If.Cond)
-					want := g.Branch != flip
-					if b, ok := cnd.(*ssa.BinOp); ok && b.Op == token.EQL && !want {
-						if s, ok := constString(b.Y); ok {
-							skipped[s] = true
-						}
-					}
-					if b, ok := cnd.(*ssa.BinOp); ok && b.Op == token.NEQ && want {
-						if s, ok := constString(b.Y); ok {
+					// the edge implies key ∉ set: `key == K` not taken, `key != K` taken, `slices.Contains(carriers, key)` false …
+					if _, set, member, ok := inSetOnEdge(g.If.Cond, g.Branch); ok && !member {
+						for _, s := range set {
 							skipped[s] = true
 						}
 					}
